@@ -289,7 +289,8 @@ class C18(Prop):
             "atoms p,q or unspecified; at most one shared node), built through the public constructors; (ii) every "
             "feature grammar obtained from a useful skeleton of CFG(2,2,2,<=p) by annotating at most k variable "
             "occurrences with F=p, F=q or F=?x (read by FCFG.from_text) x every word of length <= 3; feature-free "
-            "grammars are compared with CFG.contains too; non-trivial = unification succeeds on distinct structures / "
+            "grammars are compared with CFG.contains too; (iii) a two-feature agreement family and a lexical-ambiguity family (one head and body under two annotations, a variable called Gamma); "
+            " non-trivial = unification succeeds on distinct structures / "
             "the instantiated grammar generates >= 1 word")
     BOUNDS = "563 structures (317k ordered pairs); skeletons <= 3 productions, <= 2 annotated occurrences (3 thorough); words <= 3"
     CLAUSES = ["C18.unify.raises", "C18.unify.result", "C18.unify.symmetric", "C18.fcfg.contains", "C18.fcfg.agrees_with_cfg",
